@@ -25,11 +25,11 @@ import (
 )
 
 type dualReq struct {
-	f                 *flowRun
-	step, from, src   string
-	m                 *WMsg
-	expect            string
-	reply             chan *flowEv
+	f               *flowRun
+	step, from, src string
+	m               *WMsg
+	expect          string
+	reply           chan *flowEv
 }
 
 type dualCoord struct {
